@@ -191,6 +191,9 @@ _REPO_CLASS_MODULES = [
     "apischema.json_schema.types",
 ]
 
+# classes of these modules whose name is already taken get a prefix
+_PREFIX = {"apischema.serialization.methods": "Ser"}
+
 # layout-incompatible builtin bases: no class derives from two of them
 _DISJOINT = ["NoneType", "int", "float", "str", "bytes", "list", "dict", "tuple", "set", "frozenset", "BaseException", "type"]
 _FINAL = ["NoneType", "bool"]
@@ -210,22 +213,26 @@ class Classes:
             self.consts[name] = z3.Const("C_" + name, Val)
             self.supers[name] = [n for n, c2 in _BUILTIN.items() if issubclass(c, c2)]
         self.repo_module: Dict[str, str] = {}
+        self.real_name: Dict[str, str] = {}
         for mod in _REPO_CLASS_MODULES:
             try:
                 bases = source.class_bases(mod)
             except source.SourceError:
                 continue
             for cname in bases:
+                key = cname
                 if cname in self.consts:
-                    continue
-                self.repo_module[cname] = mod
-                self.consts[cname] = z3.Const("C_" + cname, Val)
+                    if cname in _BUILTIN or mod not in _PREFIX:
+                        continue
+                    key = _PREFIX[mod] + cname  # same class name in another module
+                self.repo_module[key] = mod
+                self.real_name[key] = cname
+                self.consts[key] = z3.Const("C_" + key, Val)
         # resolve supers of repo classes transitively through names we know
         all_bases: Dict[str, List[str]] = {}
-        for mod in set(self.repo_module.values()):
-            for cname, bs in source.class_bases(mod).items():
-                if self.repo_module.get(cname) == mod:
-                    all_bases[cname] = bs
+        for key, mod in self.repo_module.items():
+            bs = source.class_bases(mod)[self.real_name[key]]
+            all_bases[key] = [self.local(b, mod) for b in bs]
         for cname in self.repo_module:
             seen: List[str] = []
 
@@ -249,6 +256,13 @@ class Classes:
             if "object" not in seen:
                 seen.append("object")
             self.supers[cname] = [s for s in seen if s in self.consts]
+
+    def local(self, name: str, module: str) -> str:
+        """the theory name of class `name` as seen from `module`"""
+        pre = _PREFIX.get(module)
+        if pre and (pre + name) in self.consts and self.repo_module.get(pre + name) == module:
+            return pre + name
+        return name
 
     def __getitem__(self, name: str) -> z3.ExprRef:
         try:
